@@ -162,13 +162,20 @@ def run_path(text, drv, script, propagate):
 
 
 def work(item):
-    name, seedstr, propagate = item
+    name, seedstr, propagate = item[:3]
+    qmode = item[3] if len(item) > 3 else "all"
     rng = pyrandom.Random(seedstr)
     prog, values = sample_program(rng)
+    if qmode == "sub":
+        # only some atoms are queried: the rest of the program is reached through the evidence only (or not at all)
+        rq = pyrandom.Random(seedstr + "/queries")
+        qs = [s_ for s_ in prog if s_[0] == "query"]
+        keep = rq.sample(qs, rq.randint(1, max(1, len(qs) // 2)))
+        prog = [s_ for s_ in prog if s_[0] != "query" or s_ in keep]
     st = Stats()
     st["programs"] = 1
     text = symsem.substitute_params(gen.program_text(prog), values)
-    pkey = short_hash(text + str(propagate))
+    pkey = short_hash(text + str(propagate))   # the text contains the query lines
     st["samples"].append({"name": name, "program": text, "propagate_evidence": propagate})
     G = refsem.ground(prog)
     phi = refsem.semantics(G, refsem.Z3Alg)
@@ -222,7 +229,7 @@ def work(item):
         if propagate:
             prefix = "propagate:ad+evidence:" if (has_ad and G.evidence) else "propagate:"
         st.violation("%s%s" % (prefix, kind), what,
-                     {"seed": seedstr, "propagate": propagate, "script": script, "program": text})
+                     {"seed": seedstr, "propagate": propagate, "qmode": qmode, "script": script, "program": text})
 
     drv = Driver()
     acc_mass = Fraction(0)
@@ -239,7 +246,7 @@ def work(item):
         except Exception as e:
             st.ob("refuted", key="raise:%s:%s" % (pkey, script))
             st.violation("raised:%s@%s" % (type(e).__name__, call_site(e)), "the sampler raised %s: %s on comparison outcomes %s" % (
-                type(e).__name__, e, script), {"seed": seedstr, "propagate": propagate, "script": script, "program": text})
+                type(e).__name__, e, script), {"seed": seedstr, "propagate": propagate, "qmode": qmode, "script": script, "program": text})
             return st
         mu = drv.mass()
         okey = "%s:%s" % (pkey, "".join("1" if b else "0" for b in script))
@@ -323,6 +330,7 @@ def main(tier, seed):
         items.append(("s/%d/%d" % (seed, i), "c22/%s/%s" % (seed, i), False))
         if i % 3 == 0:
             items.append(("s/%d/%d+pe" % (seed, i), "c22/%s/%s" % (seed, i), True))
+        items.append(("s/%d/%d/sub" % (seed, i), "c22/%s/%s" % (seed, i), False, "sub"))
     run.bounds = {"programs": len(items), "max_paths": 4096}
     paths = 0
     for st in pmap(work, items, item_timeout=300):
@@ -334,5 +342,5 @@ def main(tier, seed):
 
 
 def replay(obj):
-    st = work(("replay", obj["seed"], obj["propagate"]))
+    st = work(("replay", obj["seed"], obj["propagate"], obj.get("qmode", "all")))
     return bool(st["violations"])
